@@ -37,7 +37,10 @@ class C19(Machine):
                    "silence_level_ge1_with_mpi", "empty_pool_batch",
                    "wrong_order_refused", "generated_ids", "pinned_slave",
                    "get_next_result_used", "fault_horizon_reached",
-                   "empty_chunk")
+                   "empty_chunk", "example_program_mc",
+                   "example_program_large")
+    # reported, never judged (DESIGN §4 C19): all sends synchronous
+    info_probes = ("zero_buffer_deadlock", "zero_buffer_completed")
     faults_na = ("message_loss", "message_duplication", "partition",
                  "rank_crash", "clock_skew", "disk_faults")
     real_vs_stub = {
@@ -71,11 +74,37 @@ class C19(Machine):
         return {"wall": 45, "max_runs": 10 ** 9, "chunk": 4,
                 "task_cap": 200}
 
+    # ---- parent side: real multiprocessing pool calls validate SimPool
+    def extra_checks(self, tier, src):
+        if tier != "thorough":
+            return {}
+        import json
+        import os
+        import subprocess
+        here = os.path.dirname(os.path.dirname(os.path.abspath(__file__)))
+        r = subprocess.run(
+            ["timeout", "300", "/venv/bin/python",
+             os.path.join(here, "selftest", "real_pool.py"), src],
+            stdout=subprocess.PIPE, stderr=subprocess.PIPE, text=True)
+        try:
+            d = json.loads(r.stdout.strip().splitlines()[-1])
+        except Exception:
+            return {"harness": [f"real pool validation failed to run: "
+                                f"{r.stderr[-400:]}"]}
+        out = {"evidence": {"real_spawn_pool_validation": d}}
+        if not d["ok"]:
+            out["violations"] = [{
+                "sig": "C19|real-pool|nsi_betweenness|differs",
+                "detail": f"real multiprocessing pool differs from serial "
+                          f"by {d['max_rel_dev']}"}]
+        return out
+
     # ------------------------------------------------------------ generation
     def generate(self, seed, tier, idx, lru):
         S = Streams(seed, self.pid, tier, idx)
         a, k = S["args"], S["knobs"]
-        kind = a.choice(("measure",) * 5 + ("pool",) * 2 + ("protocol",) * 3)
+        kind = a.choice(("measure",) * 5 + ("pool",) * 2 + ("protocol",) * 3
+                        + ("example",))
         # graph: several components straddling 10 nodes, isolated nodes
         ncomp = a.choice((1, 1, 2, 2, 3))
         sizes = [a.choice((2, 3, 5, 9, 10, 11, 12, 15, 21, 24, 31, 40))
@@ -97,9 +126,19 @@ class C19(Machine):
                  "compute_decades": k.choice(((-3, 0), (-4, -3), (-2, 1)))}
         run = {"property": self.pid, "seed": seed, "run": idx,
                "config": cfg, "graph": graph, "world": world}
-        if kind == "measure":
+        if kind == "example":
+            # the shapes of docs/source/examples/modules/mpi/*.py, reduced
+            cfg["example"] = a.choice(("mc", "mc", "large"))
+            cfg["size"] = self._size(a, n)
+            cfg["jobs"] = a.choice((1, 3, 8, 20))
+            cfg["verbose"] = a.random() < 0.3
+        elif kind == "measure":
             cfg["measure"] = a.choice(MEASURES)
             cfg["size"] = self._size(a, n)
+            # un-judged probe configuration: every send synchronous
+            if a.random() < 0.03:
+                world["eager_limit"] = 0
+                cfg["probe_zero_buffer"] = True
             if cfg["measure"] == "nsi_arenas":
                 cfg["exclude_neighbors"] = a.choice((True, False))
                 cfg["stopping_mode"] = a.choice(("neighbors", "twinness"))
@@ -177,7 +216,45 @@ class C19(Machine):
         if not master_mpi.available:
             raise RuntimeError("simulated mpi module reports unavailable")
 
-        if kind == "measure":
+        fake_main = None
+        if kind == "example":
+            import types
+            fake_main = types.ModuleType("__main__")
+            box = {}
+            ex = cfg["example"]
+            if ex == "mc":
+                def do_one(i):
+                    Ai = G.gnp(12, 0.4, 1000 + i)
+                    return Network(adjacency=Ai,
+                                   silence_level=3).global_clustering()
+
+                def master_body():
+                    for i in range(cfg["jobs"]):
+                        master_mpi.submit_call("do_one", (i,))
+                    s_ = 0
+                    for i in range(cfg["jobs"]):
+                        s_ += master_mpi.get_next_result()
+                    box["out"] = s_ / cfg["jobs"]
+                    master_mpi.info()
+                fake_main.do_one = do_one
+                serial = C.call(lambda: sum(
+                    do_one(i) for i in range(cfg["jobs"])) / cfg["jobs"])
+                tol = "exact"
+            else:
+                net_l = mk()
+
+                def master_body():
+                    box["out"] = net_l.newman_betweenness()
+                    master_mpi.info()
+                serial = C.call(lambda: mk().newman_betweenness())
+                tol = "exact"
+            fake_main.master = master_body
+
+            def master():
+                out = C.call(master_mpi.run, cfg["verbose"])
+                return out if isinstance(out, C.Raised) else box.get("out")
+            tag += ex
+        elif kind == "measure":
             meas = cfg["measure"]
             serial = C.call(self._measure, mk(), cfg)
             net = mk()
@@ -203,12 +280,16 @@ class C19(Machine):
             tol = "exact" if cfg["kernel"] != "arenas" else (1e-10, 1e-12)
 
         saved = NW.mpi
+        saved_main = sys.modules["__main__"]
         NW.mpi = master_mpi
         outcome = None
         try:
+            if fake_main is not None:
+                sys.modules["__main__"] = fake_main
             world.spawn(0, master)
             for r in range(1, size):
-                world.spawn(r, world.modules[r].serve)
+                world.spawn(r, world.modules[r].run if fake_main is not None
+                            else world.modules[r].serve)
             try:
                 world.run(until_done=(0,), max_steps=4000)
                 world.drain()
@@ -218,6 +299,7 @@ class C19(Machine):
                 outcome = ("no-progress", str(e))
         finally:
             NW.mpi = saved
+            sys.modules["__main__"] = saved_main
             if outcome is not None or any(
                     rk.state != MW.DONE for rk in world.ranks):
                 world.abort()
@@ -255,6 +337,13 @@ class C19(Machine):
         R.fault("slow_message", st["latency_gt_1ms"])
         R.fault("rendezvous_send", st["rendezvous_sends"])
 
+        if cfg.get("probe_zero_buffer"):
+            R.probe("zero_buffer_deadlock" if outcome is not None
+                    else "zero_buffer_completed")
+            R.trace.append(("zero-buffer-probe", outcome is not None))
+            return R.as_dict()
+        if kind == "example":
+            R.probe("example_program_" + cfg["example"])
         if outcome is not None:
             R.violate(tag + "|" + outcome[0],
                       f"{outcome[0]}: master did not finish: {outcome[1]}")
